@@ -251,7 +251,7 @@ verif_harness! {
 
 // ------------------------------------------------------------------ round trips
 
-//@ harness name=gift_rt_ed prop=C01,C20 tier=quick bits=2688 est=20 desc="D: decrypt_block(encrypt_block(b)) == b on an ARBITRARY round-key state (superset of all keys), all blocks"
+//@ harness name=gift_rt_ed prop=C01,C20 tier=quick bits=2688 est=25 desc="D: decrypt_block(encrypt_block(b)) == b on an ARBITRARY round-key state (superset of all keys), all blocks"
 verif_harness! {
     name: gift_rt_ed,
     bytes: 336,
@@ -264,7 +264,7 @@ verif_harness! {
         Some(b.0 == blk)
     }
 }
-//@ harness name=gift_rt_de prop=C01,C20 tier=quick bits=2688 est=20 desc="D: encrypt_block(decrypt_block(b)) == b on an ARBITRARY round-key state, all blocks"
+//@ harness name=gift_rt_de prop=C01,C20 tier=quick bits=2688 est=25 desc="D: encrypt_block(decrypt_block(b)) == b on an ARBITRARY round-key state, all blocks"
 verif_harness! {
     name: gift_rt_de,
     bytes: 336,
